@@ -148,6 +148,9 @@ impl Run {
         for (_, (v, hits)) in vio.iter() {
             // a violation recorded by an engine that serves several properties is reported by the property it belongs to only
             if v.property != self.id {
+                if std::env::var("MCHECK_ALL_PROPS").is_ok() {
+                    println!("note: (other property, reported by its own check) {} {} -- {} [{} hits]", v.property, v.class, v.what.chars().take(300).collect::<String>(), hits);
+                }
                 continue;
             }
             if let Some(k) = known.iter().find(|k| k.status == "known" && k.property == v.property && k.class == v.class) {
